@@ -209,6 +209,8 @@ class Execution:
         sched.log("InvStart", inv=inv, split=split, n_ops=len(self.backend.order), token=ev["CheckpointToken"])
         gc_was = gc.isenabled()
         gc.disable()
+        from . import exec_trace
+        exec_trace.BATCHER_CFG = sc.get("batcher")
         try:
             # the event goes through JSON exactly like the Lambda runtime would deliver it
             event = json.loads(json.dumps(ev))
@@ -216,6 +218,7 @@ class Execution:
         finally:
             if gc_was:
                 gc.enable()
+            exec_trace.BATCHER_CFG = None
             self._sched = None
         self.now = sched.now
         r.events = sched.events
